@@ -154,4 +154,16 @@ PROPS = {
         "level_text": "All grid, boundary and random clock states satisfied the statement's inequalities and were independent of the opponent's clock (~3e6 quick / ~3e7 thorough states); in thousands of virtual-time runs the real driver armed exactly that deadline for the side to move, incl. after ponderhit. Held on the executions observed.",
         "level_note": "trusted: testing/synctest's virtual clock; the hook only forwards to the unexported timeControl helpers",
     },
+    "C16": {
+        "pkg": "./c16",
+        "stages": [{"name": "main", "timeout_q": 1500, "timeout_t": 7200}],
+        "rule": "cases = picker runs (position, hash candidate, ranker state, history stack): the real picker.New/Next/Move with the real move.Store and stack.Stack is iterated to exhaustion; the yielded sequence must be a permutation of GenNoisy+GenNotNoisy, "
+                "start with the hash candidate whenever that is generated, and every yielded weight must lie in its band (quiet within +-3*1024, noisy in the good/bad capture bands). Hash candidates: none, every generated move, and 256 (quick) / 4096 (thorough) random encodings "
+                "incl. promotion-bit variants of real moves. Ranker states: empty; driven to saturation by thousands of FailHigh calls with depths up to 127 and extreme weights (largest stored magnitude must stay <= 1024); and rankers taken from engines that have just searched real games. "
+                "Plus the EXHAUSTIVE one-step bound: for each of the three history tables, every stored value in [-1024,1024] x every bonus in [-1100,1100] stays within +-1024 (3 x 4.5e6 cases). distinct_nontrivial = distinct (position, ranker) pairs. " + VALID,
+        "assumptions": [REF + " (validity only)", "band constants are those documented in heur/heur.go (HashMove 16k, Captures 7k, CaptureRange 1k, MaxHistory 1k)"],
+        "technique": "runtime monitor: multiset-equality oracle against the generator on the real picker + band assertions at yield time + exhaustive one-step history bound",
+        "level_text": "Every explored picker run yielded each pseudo-legal move exactly once, hash move first when pseudo-legal, all weights inside their bands (~2e6 runs quick / ~5e8 thorough) under empty, saturated and realistic history tables; the one-step history bound is checked exhaustively. Held on the executions observed.",
+        "level_note": "trusted: the engine's own generator as the definition of the move set; history tables reached only through FailHigh/Add as in the search",
+    },
 }
